@@ -601,6 +601,17 @@ func (w *World) projStr(ctx sdk.Context) J {
 				"last": msOf(st.LastOutflowTime), "dzt": msOf(st.DepositZeroTime), "canc": st.Cancellable}
 		}
 	}
+	// streams whose parties are not scenario accounts (a module account as receiver ...) are taken from the list query
+	if err == nil {
+		for _, s := range resp.Streams {
+			key := w.nameOf(s.Receiver) + "/" + w.nameOf(s.Sender)
+			if _, ok := ss[key]; !ok && s.Stream != nil {
+				st := s.Stream
+				ss[key] = J{"dep": absInt(st.Deposit.Amount), "den": st.Deposit.Denom, "rate": absI64(st.FlowRate),
+					"last": msOf(st.LastOutflowTime), "dzt": msOf(st.DepositZeroTime), "canc": st.Cancellable}
+			}
+		}
+	}
 	out["s"] = ss
 	out["order"] = w.streamOrder(sortedKeys(ss))
 	out["inv"] = w.invariantHolds("stream")
